@@ -57,7 +57,7 @@ def run(prop, tier, args):
         agg.samples.append({"seed": lo, "cfg": sc["cfg"], "tree_blocks": len(sc["tree"]), "tree_head": sc["tree"][:3], "ops_head": sc["ops"][:25], "store_caches": sc.get("store_caches")})
     except HarnessError:
         pass
-    unknown = nc.triage(prop, agg)
+    unknown = nc.triage(prop, agg, budget=(20 if prop == "C07" else 250))
     wall = time.time() - t0
     cov = nc.evidence_cov(agg, wall, cfg["rule"])
     write_evidence(prop, tier, cfg["level"], cov, wall, unknown, cfg["assumptions"])
